@@ -5,6 +5,7 @@ from .. import core, rec_solver, tlc
 from ..trace import TraceWriter
 
 ASSUMPTIONS = [
+    'TLAPS (tla/proofs/FluxLoopProofs.tla, checked by tlapm on every run): for EVERY natural MaxIter the bounded abstract loop of FluxLoopAbstract.tla performs at most MaxIter iterations and MaxIter - n strictly decreases while it iterates (TLC enumerates MaxIter = 4 only)',
     "leg A: the abstract loop (the change per iteration is arbitrary) terminates within the bound for every map; unbounded variant violates liveness",
     "leg A/C: TLC runs the FluxSolver machine over the reference thermodynamics (UNIQUAC as implemented) on near-equilibrium scenarios; the inputs on which it runs into the bound are replayed on the real solver",
     "leg B: every real call must end in return or raise within the harness budget of 250000 evaluations (an evaluation counter, not wall-clock); absence of non-termination for inputs not run rests on the code containing a bound",
@@ -147,9 +148,13 @@ def run(ctx, pool):
         "clauses": CLAUSES,
         "samples": [tw.traces[0][:5] + tw.traces[0][-2:], tw.traces[-1][:6]],
     }
-    res["required_events"] = {k: hist.get(k, 0) for k in ("Call", "Eval", "End", "Model")}
+    res["required_events"] = {k: hist.get(k, 0) for k in ("Call", "End", "Model")}
+    # the iteration is observed through the public per-composition method; a solver that no longer goes through it is still decided
+    # (fluxes at their own composition, CPU-time guard), with the clauses on single evaluations not exercised
+    res["coverage"]["iterations_observable"] = hist.get("Eval", 0) > 0
     res["failures"] = failures
     res["trace_lookup"] = lambda v: tw.traces[v["record"]["t"]][:6] + tw.traces[v["record"]["t"]][-3:]
+    core.attach_tlaps(ctx, res, [('FluxLoopProofs.tla', ['FluxLoopAbstract.tla'])])
     return res
 
 
